@@ -27,7 +27,7 @@ EXPLANATION = (
 )
 ASSUMPTIONS = [
     'tqdm/logger/display_status are stubbed with empty bodies in lifted closures',
-    'interval-partition lemma (stated, not machine checked): if chunks partition [0,total) and each chunk attributes '
+    'interval-partition lemma (machine-checked for two chunks over two files by A2, stated beyond that): if chunks partition [0,total) and each chunk attributes '
     'exactly [max(fs,cs),min(fe,ce)) to each file (A1), the references of a file tile [fs,fe)',
     'E obligations: sizes from the pool {0,1,3,4,5,8,9,15,16,17,33}; chunk (min,max) in {(4,8),(5,10),(1,4),(8,8),(3,9)}',
 ]
@@ -41,6 +41,8 @@ def obligations(tier):
            '3 files, unbounded non-decreasing sizes (snapshot sorts by size), one arbitrary chunk', [REPO_FUNCS['cd']], module=H, func='a1_one_chunk', timeout=120),
         Ob('A1e', 'S', 'leading empty files (files are sorted by size) are recorded (zero-length ref, digest, metadata) by the chunk starting at 0',
            '3 files (first one or two empty), unbounded sizes', [REPO_FUNCS['cd']], module=H, func='a1_empty_file_recorded', timeout=120),
+        Ob('A2', 'S', 'two consecutive chunks over two files: the recorded references of each file, in counter order, tile the file exactly',
+           '2 files, unbounded sizes, arbitrary cut point', [REPO_FUNCS['cd']], module=H, func='a2_two_chunks', timeout=600),
         Ob('L1', 'S', 'stream layout: every file occupies [start,end) of its size, starts aligned with <4 bytes zero padding, in list order; '
            'digest/metadata set; yielded bytes == bytes_with_padding', '3 files, <=3 read pieces per file, piece size symbolic, fstat-reported size independent of the bytes read',
            [REPO_FUNCS['sf']], module=H, func='l1_layout', timeout=600),
